@@ -249,6 +249,7 @@ type ScriptOpts struct {
 	Exclude   map[string]bool
 	EndAccept bool
 	NativeVi  bool // do not run vi-* commands through harness binds outside vi command mode
+	NoExtra   bool // never use the harness binds: only default key sequences
 }
 
 func tok(b string, cmd string) wire.Token { return wire.Token{B: wire.Bytes(b), Cmd: cmd} }
@@ -337,6 +338,15 @@ func (g *Gen) editScriptTracker(t tracker, o ScriptOpts) []wire.Token {
 			if t.local != "" && g.P(60) {
 				km = t.local
 			}
+			if t.local == "vi-opp" && g.P(20) {
+				// operator + surround: the deepest argument-reading path of the vi keymaps
+				out = append(out, tok("s", "vi-select-surround"), tok(string(Pick(g, []rune("\"'()[]{}<>"))), "arg-key"))
+				if g.P(70) {
+					out = append(out, tok(string(Pick(g, []rune("\"'([{x"))), "arg-key"))
+				}
+				t.local = ""
+				continue
+			}
 			names := cat.Names[km]
 			if len(names) == 0 {
 				km = t.main
@@ -359,11 +369,23 @@ func (g *Gen) editScriptTracker(t tracker, o ScriptOpts) []wire.Token {
 			if seq == "" {
 				continue
 			}
+			if o.NoExtra && strings.HasPrefix(seq, "\x1c") {
+				continue // only commands reachable through the default tables
+			}
 			if o.NativeVi && strings.HasPrefix(seq, "\x1c") && km != "vi-command" && (strings.HasPrefix(cmd, "vi-") || strings.HasPrefix(cmd, "select-")) {
 				continue // vi operators/motions are only reached through their own keymaps
 			}
 			out = append(out, tok(seq, cmd))
+			wasOpp := t.local == "vi-opp"
 			t.after(cmd)
+			if (cmd == "vi-select-surround" || cmd == "vi-select-inside" || cmd == "vi-add-surround" || cmd == "vi-change-surround") && g.P(85) {
+				// surround commands take a bracket or quote (and, after a change operator, a replacement)
+				out = append(out, tok(string(Pick(g, []rune("\"'()[]{}<>`"))), "arg-key"))
+				if wasOpp && g.P(70) {
+					out = append(out, tok(string(Pick(g, []rune("\"'([{x"))), "arg-key"))
+				}
+				continue
+			}
 			if argCommands[cmd] && g.P(85) {
 				if g.P(15) {
 					out = append(out, g.rawToken())
@@ -378,8 +400,13 @@ func (g *Gen) editScriptTracker(t tracker, o ScriptOpts) []wire.Token {
 				}
 			}
 			if t.local == "isearch" && g.P(70) {
-				for i := 0; i < g.Range(1, 3); i++ {
+				for i := 0; i < g.Range(0, 3); i++ {
 					out = append(out, tok(string(Pick(g, []rune("abcdexyz 01"))), "isearch-char"))
+				}
+				if cmd == "vi-search" && g.P(60) && !o.NoAccept {
+					// accept the non-incremental search: back to command mode on the matched line
+					out = append(out, tok("\r", "search-accept"))
+					t.local = ""
 				}
 			}
 		}
